@@ -376,6 +376,13 @@ func (e *Extractor) callToken(info *types.Info, c *ast.CallExpr) *node {
 				return &node{kind: "tok", text: fmt.Sprintf(fmtStr, k)}
 			}
 		}
+		if mk, ok := arg.(*ast.CallExpr); ok && len(mk.Args) >= 2 {
+			if b, ok := core.Callee(info, mk).(*types.Builtin); ok && b.Name() == "make" {
+				if k, ok := core.IntConst(info, mk.Args[1]); ok {
+					return &node{kind: "tok", text: fmt.Sprintf(fmtStr, k)}
+				}
+			}
+		}
 		if fv := core.FieldOf(info, arg); fv != nil {
 			if k, ok := e.S.FieldBufLen[fv.Name()]; ok {
 				return &node{kind: "tok", text: fmt.Sprintf(fmtStr, k)}
